@@ -44,7 +44,7 @@ VARIABLES
   pc,       \* [task -> index of the current op]
   sub,      \* [task -> "" | "in" (inside a traced call) | "sp" (spawn issued) | "sq" (signal queued)]
   pend,     \* [task -> set of pending signals (other than SIGCHLD)]
-  nchld,    \* [task -> pending SIGCHLD notifications, 0..2] (a stop and an exit of a child may be taken separately)
+  nchld,    \* [leader -> pending SIGCHLD notifications of that process, 0..2] (a stop and an exit of a child may be taken separately)
   gtok,     \* [task -> group-stop participations still owed]
   regs,     \* [task -> [skip, ret]] what the tracer wrote into the registers during the current seccomp stop
   opts,     \* [task -> BOOLEAN] PTRACE_O_TRACE{FORK,VFORK,CLONE,SECCOMP,EXEC} in force
@@ -119,9 +119,9 @@ Log(k, r) == rets' = [rets EXCEPT ![k] = Append(@, [i |-> pc[k], op |-> CurOp(k)
 InVforkWait(k) == sub[k] = "sp" /\ CurOp(k).k = "V" /\ ts[CurOp(k).n] \in {"stop", "held", "run"}
 K_Deliver(k) ==
   /\ Runs(k) /\ ~InVforkWait(k) /\ sub[k] # "ex"
-  /\ \E s \in pend[k] \cup (IF nchld[k] > 0 THEN {SIGCHLD} ELSE {}) :
+  /\ \E s \in pend[k] \cup (IF nchld[Leader(k)] > 0 THEN {SIGCHLD} ELSE {}) :
        /\ pend' = [pend EXCEPT ![k] = @ \ {s}]
-       /\ nchld' = IF s = SIGCHLD THEN [nchld EXCEPT ![k] = @ - 1] ELSE nchld
+       /\ nchld' = IF s = SIGCHLD THEN [nchld EXCEPT ![Leader(k)] = @ - 1] ELSE nchld
        /\ ts' = [ts EXCEPT ![k] = "stop"]
        /\ ev' = [ev EXCEPT ![k] = Ev("sig", s)]
   /\ UNCHANGED <<pc, sub, gtok, regs, opts, scnt, lph, esc, cvars, tvars, ovars>>
@@ -220,8 +220,10 @@ K_Wait(k) ==
 Die(G, e) ==
   /\ ts' = [j \in Tasks |-> IF j \in G /\ Alive(j) THEN "zombie" ELSE ts[j]]
   /\ ev' = [j \in Tasks |-> IF j \in G /\ Alive(j) THEN e ELSE ev[j]]
+\* SIGCHLD is sent to the parent PROCESS (counted at its leader); any of its threads may take it
 ChldTo(k) == LET p == par[Leader(k)] IN
-  IF Noise /\ p # 0 /\ Alive(p) THEN [nchld EXCEPT ![p] = IF @ < 2 THEN @ + 1 ELSE @] ELSE nchld
+  IF Noise /\ p # 0 /\ (\E i \in Group(p) : Alive(i))
+    THEN [nchld EXCEPT ![Leader(p)] = IF @ < 2 THEN @ + 1 ELSE @] ELSE nchld
 
 K_ExitGroup(k) ==
   /\ Ready(k) /\ sub[k] = "" /\ CurOp(k).k = "X"
